@@ -36,6 +36,8 @@ RANGE = swapper([
     ("::lt", "::gt"),
     ("Le", "Ge"),
     ("Lt", "Gt"),
+    ("Forward", "Backward"),
+    ("Ascending", "Descending"),
 ])
 
 
